@@ -1,6 +1,7 @@
 import Iavl.Model.Codec
 import Iavl.Lemmas.Refine
 import Iavl.Generated.FactsOk
+import Iavl.Generated.SrcC16Ok
 /-
   C16 — databases in the legacy (pre-1.0) format stay usable. The databases are written by the real
   legacy library (iavl v0.20.0, harness/legacygen); the model runs the same history and predicts the
@@ -23,6 +24,17 @@ theorem legacy_inner_codec (h sz ver : Int) (k l r : Bytes) (h0 : h ≠ 0) (hlo 
     (hk : k.length < 2 ^ 63) (hl : l.length < 2 ^ 63) (hr : r.length < 2 ^ 63) :
     decLegacyNode (encLegacyNode (.inner h sz ver k l r)) = some (.inner h sz ver k l r) :=
   decLegacyNode_encLegacyNode_inner h sz ver k l r h0 hlo hhi h1 h2 h3 h4 hk hl hr
+
+/-- `deleteLegacyVersions(L)` (nodedb.go): the scan over the legacy orphan records - a record (to, from) says the
+    node was part of the versions from..to - deletes the node iff `(from ≤ L ∧ to < L) ∨ from > L`. That is
+    exactly "the node is not part of the latest legacy version L": a node still alive at L is kept (the first
+    new-format versions may share it; what they do not use is deleted by the orphan diff of L against L+1, C04) -/
+def legacyScanDeletes (L from_ to : Nat) : Bool := (decide (from_ ≤ L) && decide (to < L)) || decide (L < from_)
+
+theorem legacy_bulk_prune_deletes_exactly_dead_nodes (L from_ to : Nat) :
+    legacyScanDeletes L from_ to = true ↔ ¬ (from_ ≤ L ∧ L ≤ to) := by
+  simp only [legacyScanDeletes, Bool.or_eq_true, Bool.and_eq_true, decide_eq_true_eq]
+  omega
 
 theorem legacy_keyspace :
     Facts.legacyNodeKeyPrefix = 110 ∧ Facts.legacyOrphanKeyPrefix = 111 ∧ Facts.legacyRootKeyPrefix = 114 :=
